@@ -201,6 +201,51 @@ def getDeformMatricesUnfixed (fuel : Nat) (h : Header) (frm to : Nat) : Res Unit
         if next.sibling == sentinel then .fail
         else walkUnfixed h to fuel item next
 
+/-! ## pbd: decoded size (class predicate of the recorded finding `pbd.shared-blocks`)
+
+Items reach their deformer block through an absolute offset (`seek_before` + `restore_position`) and
+bone names through offsets relative to the block, so several items / bones may point at the *same*
+bytes; every reference is decoded into its own `Vec` / `String`.  The decoded size is therefore not
+bounded by the work of a single pass over the input (`c` items sharing one block of `L` bytes decode
+to `c·L` bytes out of `20·c + L`), and `get_deform_matrices` clones one item per round of a walk of
+up to `links.len()` rounds.  This is outside what `Res.peak` records (explicit input-sized requests);
+the estimate below is what the driver uses to tag the cases of that class. -/
+
+def nameLenGo : Bytes → Nat → Nat
+  | [], n => n
+  | x :: r, n => if x == 0 then n else nameLenGo r (n + 1)
+
+/-- the bone name offsets of the deformer block under the cursor -/
+def deformerOffsets : P (List UInt16) := do
+  let bc ← P.u32le
+  let n ← i32Count bc
+  P.count n P.u16le
+
+/-- bytes held by one decoded deformer: per bone 2 (offset) + 24 (`String`) + 48 (matrix) + its name -/
+def deformerDecoded (w : Bytes) (base : Nat) : Nat :=
+  match (P.runAt deformerOffsets w base).out with
+  | .ok (offs, _) => offs.foldl (fun acc o => acc + 74 + nameLenGo (w.drop (base + o.toNat)) 0) 0
+  | _ => 0
+
+/-- `data_offset` of item `i` (items start at byte 4, 12 bytes each) -/
+def itemOffset (w : Bytes) (i : Nat) : Nat :=
+  match (P.runAt P.u32le w (8 + 12 * i)).out with
+  | .ok (v, _) => v.toNat
+  | _ => 0
+
+/-- upper estimate of the bytes materialised by `from_existing` (every item) and, with `walk`, by
+`get_deform_matrices` (at most `links.len()` rounds, each cloning one item) -/
+def pbdDecodedEstimate (w : Bytes) (walk : Bool) : Nat :=
+  match (pbd w).out with
+  | .ok h =>
+    let ds := (List.range h.items.size).map (fun i => deformerDecoded w (itemOffset w i))
+    ds.sum + (if walk then h.links.size * ds.foldl max 0 else 0)
+  | _ => 0
+
+/-- the class of the finding: the decoded size may exceed the allocation budget of the input -/
+def pbdOutOfProportion (w : Bytes) (walk : Bool) : Bool :=
+  decide (3 * pbdDecodedEstimate w walk > budget w.length)
+
 /-! ## tera -/
 
 structure TerrainHeader where
